@@ -27,6 +27,8 @@ import (
 	"sync"
 	"unicode/utf8"
 
+	"github.com/rhysd/actionlint"
+
 	"verifharness/hx"
 )
 
@@ -196,6 +198,9 @@ func mutateLex(r *hx.Rng, lex []string) []string {
 // ---------------------------------------------------------------- oracle
 
 const bom = "\ufeff"
+
+// 1/n of the inputs of a stream go through Linter.Lint as well
+var lintMods = map[string]uint32{"corpus": 1, "strings": 400, "tokens": 100, "random": 20, "mutant": 20, "ascii": 20}
 
 type failure struct {
 	What  string `json:"what"`
@@ -371,6 +376,8 @@ type worker struct {
 
 	evals      int
 	skipped    int
+	linted     int
+	linter     *actionlint.Linter
 	accepted   int
 	dist       map[string]int
 	fails      []failure
@@ -379,7 +386,7 @@ type worker struct {
 }
 
 func startWorker(modelPath string) *worker {
-	w := &worker{dist: map[string]int{}, outBuf: &strings.Builder{}, done: make(chan struct{})}
+	w := &worker{dist: map[string]int{}, outBuf: &strings.Builder{}, done: make(chan struct{}), linter: newLinter()}
 	if modelPath != "" {
 		w.model = exec.Command(modelPath)
 		in, err := w.model.StdinPipe()
@@ -442,6 +449,20 @@ func (w *worker) process(in input, seed uint64, sampleMod uint32) {
 			w.fails = append(w.fails, *f)
 		}
 		w.dist["oracle_failure"]++
+	}
+	// Linter-level oracle on a deterministic subset (all corpus inputs, ~1/lintMod of the others)
+	if lm := lintMods[in.kind]; lm > 0 && embeddable(src) {
+		h := fnv.New32a()
+		fmt.Fprintf(h, "lint|%d|%s", seed, src)
+		if h.Sum32()%lm == 0 {
+			w.linted++
+			if lr := lintOracle(w.linter, src, ir); !lr.ok {
+				if len(w.fails) < 2000 {
+					w.fails = append(w.fails, failure{What: lr.what, Key: "lint:" + src, Input: src, Kind: in.kind, Impl: lr.got, Want: "exactly one expression diagnostic inside the placeholder iff the text is rejected"})
+				}
+				w.dist["oracle_failure"]++
+			}
+		}
 	}
 	if sampleMod > 0 && coqOK(src) && !strings.HasPrefix(src, bom) {
 		h := fnv.New32a()
@@ -624,6 +645,7 @@ func main() {
 	modelEvaluated := 0
 	modelErr := ""
 	skippedModel := 0
+	linted := 0
 	for _, w := range ws {
 		ev, mm, et := w.finish()
 		modelEvaluated += ev
@@ -632,6 +654,7 @@ func main() {
 			modelErr = et
 		}
 		sum.Evaluations += w.evals
+		linted += w.linted
 		skippedModel += w.skipped
 		sum.Nontrivial += w.accepted
 		for k, v := range w.dist {
@@ -679,6 +702,7 @@ func main() {
 	sum.Extra["oracle_failures_by_class"] = perKey
 	sum.Extra["model_evaluated"] = modelEvaluated
 	sum.Extra["model_skipped"] = skippedModel
+	sum.Extra["linted_through_Linter.Lint"] = linted
 	sum.Extra["model_mismatches_total"] = len(mism)
 	if len(mism) > 20 {
 		mism = mism[:20]
